@@ -58,24 +58,49 @@ class _float(float):
         return super().__hash__() + 1
 
 
+class _bool(int):
+    # Like _float: True/False are equal to (and hash like) 1/0, but must be stored
+    # separately from them within a search index.
+    def __hash__(self):
+        return super().__hash__() + 2
+
+
+def _typed_key(key):
+    """Return the key under which a value is stored within a _TypedSetDefaultDict."""
+    if type(key) is float:
+        return _float(key)
+    elif type(key) is bool:
+        return _bool(key)
+    return key
+
+
+def _untyped_key(key):
+    """Return the original value for a key stored within a _TypedSetDefaultDict."""
+    if type(key) is _float:
+        return float(key)
+    elif type(key) is _bool:
+        return bool(key)
+    return key
+
+
 class _TypedSetDefaultDict(dict):
     """Dictionary that is guaranteed to store differently typed values separately.
 
     This is necessary, because the hash value of integers with float type is identical
-    to the same integer as int type, which means they cannot be stored separately in a
-    standard dict.
+    to the same integer as int type (and True/False are identical to 1/0), which means
+    they cannot be stored separately in a standard dict.
 
     """
 
     def keys(self):
         for key in dict.keys(self):
-            yield float(key) if type(key) is _float else key
+            yield _untyped_key(key)
 
     __iter__ = keys
 
     def items(self):
         for key, value in dict.items(self):
-            yield float(key) if type(key) is _float else key, value
+            yield _untyped_key(key), value
 
     def __missing__(self, key):
         value = set()
@@ -83,13 +108,13 @@ class _TypedSetDefaultDict(dict):
         return value
 
     def __getitem__(self, key):
-        return dict.__getitem__(self, _float(key) if type(key) is float else key)
+        return dict.__getitem__(self, _typed_key(key))
 
     def __setitem__(self, key, value):
-        return dict.__setitem__(self, _float(key) if type(key) is float else key, value)
+        return dict.__setitem__(self, _typed_key(key), value)
 
     def __delitem__(self, key):
-        dict.__delitem__(self, _float(key) if type(key) is float else key)
+        dict.__delitem__(self, _typed_key(key))
 
     def get(self, key, default=None):
         """Get the value for given key.
@@ -106,7 +131,7 @@ class _TypedSetDefaultDict(dict):
         The value for given key.
 
         """
-        return dict.get(self, _float(key) if type(key) is float else key, default)
+        return dict.get(self, _typed_key(key), default)
 
 
 def _find_with_index_operator(index, op, argument):
@@ -371,7 +396,9 @@ class _SearchIndexer(dict):
             if isinstance(value, Number) and float(value).is_integer():
                 result_float = index.get(_float(value), set())
                 result_int = index.get(int(value), set())
-                return result_int.union(result_float)
+                # Booleans compare equal to 0 and 1 and keep matching them.
+                result_bool = index.get(bool(value), set()) if value in (0, 1) else set()
+                return result_int.union(result_float, result_bool)
             else:
                 return index.get(value, set())
 
